@@ -547,10 +547,11 @@ pub fn record(args: &[String], seed: u64, tr: &mut Tr) -> Value {
     let n: usize = arg_num(args, "--random", 0);
     if n > 0 {
         let cfg = parse_rand(&arg_val(args, "--rand").unwrap_or_default());
-        for i in 0..n {
+        for _ in 0..n {
             let a = gens::random_diagram(&mut r, &cfg);
-            let class = [1usize, 2, 0, 3, 1, 2, 4, 2][i % 8];
-            let d = Deco { other_phases: i % 2 == 1, zero_coords: i % 9 == 4, hbox: i % 6 == 5, sc: catalogue_scalar(&mut r, class) };
+            // independent draws: no correlation between the phase, coordinate, H-box and scalar decorations
+            let class = [1usize, 2, 0, 3, 1, 2, 4, 2][r.random_range(0..8)];
+            let d = Deco { other_phases: r.random_bool(0.5), zero_coords: r.random_bool(0.12), hbox: r.random_bool(0.17), sc: catalogue_scalar(&mut r, class) };
             record_diagram(&decorate(&a, &mut r, &d), &[], &mut cx, tr);
             nrand += 1;
         }
@@ -558,10 +559,10 @@ pub fn record(args: &[String], seed: u64, tr: &mut Tr) -> Value {
     let n: usize = arg_num(args, "--big", 0);
     if n > 0 {
         let cfg = RandCfg { min_sp: 9, max_sp: 16, max_b: 5, pedge: 0.22, scalars: false, ..RandCfg::any_zx() };
-        for i in 0..n {
+        for _ in 0..n {
             let a = gens::random_diagram(&mut r, &cfg);
-            let class = [1usize, 2, 0, 3][i % 4];
-            let d = Deco { other_phases: i % 2 == 0, zero_coords: i % 5 == 2, hbox: i % 4 == 3, sc: catalogue_scalar(&mut r, class) };
+            let class = [1usize, 2, 0, 3][r.random_range(0..4)];
+            let d = Deco { other_phases: r.random_bool(0.5), zero_coords: r.random_bool(0.2), hbox: r.random_bool(0.25), sc: catalogue_scalar(&mut r, class) };
             record_diagram(&decorate(&a, &mut r, &d), &["big"], &mut cx, tr);
             nbig += 1;
         }
